@@ -302,6 +302,30 @@ func C01(r *eng.Run) {
 	})
 	r.Phase("A1 product", t0, nil)
 
+	// A1b: every leading-digit prefix (value windows opened by slightly wrong guard constants)
+	t0 = time.Now()
+	nlead := 2
+	if r.Thorough() {
+		nlead = 3
+	}
+	leads := LeadSweep(nlead)
+	sm := SmallShapes()
+	r.Bounds["lead_prefix_digits"] = nlead
+	r.Par(len(leads), func(w *eng.W, i int) {
+		cl := &rcells{}
+		for _, c2 := range sm {
+			for _, g := range gaps {
+				if g < -80 || g > 80 {
+					continue
+				}
+				qx, qy, _ := place(g)
+				addPair(w, cl, leads[i], qx, c2, qy)
+			}
+		}
+		cl.flush(w)
+	})
+	r.Phase("A1b lead sweep", t0, nil)
+
 	// A2: decision-table drive
 	t0 = time.Now()
 	var full []*big.Int
